@@ -3,24 +3,24 @@ CONSTANTS
   Fault = "none"
   KeyRegime = "drkey"
   CheckSrcHost = TRUE
-  MaxDatagrams = 2
-  CIAs <- CIAs2
-  CHosts <- CHosts2
-  EpochLen = 1
-  MaxClock = 1
+  MaxDatagrams = 3
+  CIAs <- CIAsE
+  CHosts <- CHostsE
+  EpochLen = 3
+  MaxClock = 8
   Grace = 0
   KeepPathType = FALSE
   Modes <- ModesK
   ULs <- ULsK
   L4s <- L4sK
   DPorts <- DPortsK
-  DHosts <- DHostsAll
+  DHosts <- DHostsE
   Fams <- Fams4
   PathSet <- PathsK
   PathExts <- PathExtsK
   RespExts <- RespExts1
   Pls <- PlsK
-  ReqAuths <- ReqAuthsK
+  ReqAuths <- ReqAuthsE
   RespMuts <- RespMutsK
 INVARIANTS TypeOK MacSound AuthReplyVerifies ReplyAddressing ForwardRule AtMostOne EmitSeq
 CONSTRAINT KeysOnly
